@@ -60,6 +60,10 @@ type IndexedState struct {
 
 	cachedRules *ruleCache
 
+	// expired holds the ids of the expired items that readers have
+	// seen and that purge() will remove.
+	expired expiredIds
+
 	addHook AddHookFn
 
 	remHook RemHookFn
@@ -423,6 +427,9 @@ func (s *IndexedState) Rem(ctx *Context, id string) (bool, error) {
 	Log(DEBUG, ctx, "IndexedState.Rem", "id", id)
 	timer := NewTimer(ctx, "IndexedState.Rem")
 	defer timer.Stop()
+	// The cascade searches for dependents and can meet expired
+	// items.  (Deferred first: runs after the lock is released.)
+	defer s.purge(ctx)
 	s.slock(ctx, false)
 	defer s.sunlock(ctx, false)
 	if s.remHook != nil {
@@ -565,6 +572,7 @@ func (s *IndexedState) Delete(ctx *Context) error {
 
 func (s *IndexedState) Get(ctx *Context, id string) (Map, error) {
 	fact, err := s.get(ctx, id, true)
+	s.purge(ctx)
 	return fact, err
 }
 
@@ -607,7 +615,9 @@ func (s *IndexedState) SearchForIDs(ctx *Context, pattern Map) ([]string, error)
 	return ids, err
 }
 
-// expire checks for expiration and removes the fact if expired.
+// expire checks for expiration.  An expired fact is not removed here
+// (the callers hold at most the read lock): its id is noted, and
+// purge() removes it once the caller has released its lock.
 //
 // This method is mostly generic and could be dissociated from
 // IndexedState.
@@ -621,19 +631,43 @@ func (s *IndexedState) expire(ctx *Context, id string, fact map[string]interface
 	}
 
 	if expired {
-		// Lots of things can go wrong and get us in an inconsistent state.
-		// ToDo: Be more careful.
-
 		Log(DEBUG, ctx, "IndexedState.expire", "fact", fact, "expired", expired, "now", unixNow)
-
-		if _, err := s.rem(ctx, id); err != nil {
-			Log(ERROR, ctx, "IndexedState.expire", "name", s.Name,
-				"when", "Rem", "error", err)
-			return true, err
-		}
+		s.expired.note(id)
 	}
 
 	return expired, nil
+}
+
+// purge removes (from memory and from storage, with their
+// dependents) the expired items that readers have noted.
+//
+// Takes the write lock, so the caller must not hold the state's lock
+// (unless the context is privileged: then the caller is a hook that
+// runs inside the write-locked section).  A failed removal is logged.
+func (s *IndexedState) purge(ctx *Context) {
+	ids := s.expired.take()
+	if len(ids) == 0 {
+		return
+	}
+	s.slock(ctx, false)
+	defer s.sunlock(ctx, false)
+	// Removing an item searches for its dependents, and that
+	// search can note more expired items.
+	for ; 0 < len(ids); ids = s.expired.take() {
+		for _, id := range ids {
+			fact, have := s.IdToFact[id]
+			if !have {
+				continue
+			}
+			// The id could have been given to a new fact since.
+			if expired, _ := checkExpiration(ctx, fact, 0); !expired {
+				continue
+			}
+			if _, err := s.rem(ctx, id); err != nil {
+				Log(ERROR, ctx, "IndexedState.purge", "name", s.Name, "id", id, "error", err)
+			}
+		}
+	}
 }
 
 // Search queries the term index for the given pattern (represented as JSON).
@@ -645,6 +679,7 @@ func (s *IndexedState) Search(ctx *Context, pattern Map) (*SearchResults, error)
 	s.slock(ctx, true)
 	srs, err := s.search(ctx, pattern)
 	s.sunlock(ctx, true)
+	s.purge(ctx)
 
 	return srs, err
 }
@@ -724,6 +759,8 @@ func (s *IndexedState) FindRules(ctx *Context, event Map) (map[string]Map, error
 }
 
 func (s *IndexedState) doFindRules(ctx *Context, event Map) (map[string]Map, error) {
+	// Deferred first: runs after the read lock is released.
+	defer s.purge(ctx)
 	s.slock(ctx, true)
 	defer s.sunlock(ctx, true)
 
